@@ -222,10 +222,26 @@ def gen(rng, nrng, tier):
         key, f = PARAMS[name]
         N = [7, 8, 33, 64][i % 4] if i % 3 == 0 else int(nrng.integers(1, 200))
         yield ("win", {"name": name, "N": N, "kw": {key: f(nrng)}})
+    # the end points of every shape parameter's range
+    ends = {"kaiser": ("beta", [0.0, 30.0]), "blackman": ("alpha", [0.0, 0.5]), "cauchy": ("alpha", [0.0, 6.0]),
+            "gaussian": ("alpha", [0.0, 6.0]), "poisson": ("alpha", [0.0, 6.0]), "poisson_hanning": ("alpha", [0.0, 6.0]),
+            "tukey": ("r", [0.0, 1.0, 1e-9, 1 - 1e-9]), "chebwin": ("attenuation", [45.0, 120.0])}
+    for name in sorted(ends):
+        key, vals = ends[name]
+        for v in vals:
+            for N in ((2, 9, 64) if tier == "quick" else (1, 2, 3, 9, 64, 65, 257)):
+                yield ("win", {"name": name, "N": N, "kw": {key: v}})
+    # (nbar=8, sll=-20) is left out: there the Taylor design itself is no longer a monotone taper (edge samples exceed the
+    # centre by 1.3e-4; scipy.signal.windows.taylor agrees to 1e-16), so "maximum <= 1" is not a statement about the code
+    for nbar, sll in ((2, -20.0), (8, -80.0), (2, -80.0), (8, -22.0), (7, -20.0), (1, -30.0)):
+        for N in (2, 9, 64):
+            yield ("win", {"name": "taylor", "N": N, "kw": {"nbar": nbar, "sll": sll}})
     for i in range(40 if tier == "quick" else 400):
         N = int(nrng.integers(1, 300))
         nbar = int(nrng.integers(2, 9))
         sll = -float(nrng.uniform(20, 80))
+        if nbar >= 8 and sll > -22:
+            sll = -22.0       # see the end-point cases above
         yield ("win", {"name": "taylor", "N": N, "kw": {"nbar": nbar, "sll": sll}})
     # default-parameter requests AFTER explicit non-default ones in the same process (defaults must not be remembered)
     for name in sorted(PARAMS) + ["taylor"]:
